@@ -12,8 +12,8 @@
    - after a splice both sides stand on the same clean path, at two positions one of which is a prefix
      of the other: the one behind catches up by re-walking a directory walk ([search_rewalk],
      [kwalk_rewalk]).
-   The kernel gives up after 40 links, the implementation after 64: the theorem covers every walk the
-   kernel does not refuse with ELOOP; [budget_differs] is the witness between the budgets. *)
+   Both give up at the 41st link they would FOLLOW (slCountMax = MAXSYMLINKS = 40; a final link that is not
+   followed does not count, on either side): ELOOP is part of the agreement, no side condition is left. *)
 From Avfs Require Import Base PathModel PathSpec PathProofs PathCleanProofs PathIterProofs.
 From Avfs Require Import MemFS MemFile World Posix WalkBridge.
 
@@ -158,9 +158,10 @@ Record walk_wf (h : heap) : Prop := {
   ww_acyclic : forall d, ~ dreachp h d d
 }.
 
-(* every stored link target is a cleaned string, as [symlink] stores it *)
+(* the target of every link that has a NAME (a directory entry pointing to it) is a cleaned string, as [symlink]
+   stores it.  Unnamed link nodes are garbage - [delete_node] blanks their target - and are never met by a walk. *)
 Definition links_clean (h : heap) : Prop :=
-  forall i t m, get h i = Some (NSym t m) -> exists x, t = clean Linux x.
+  forall d n i t m, dedge h d n i -> get h i = Some (NSym t m) -> exists x, t = clean Linux x.
 
 Lemma alookup_in (V : Type) (k : str) (m : list (str * V)) (x : V) : alookup str_eqb k m = Some x -> In (k, x) m.
 Proof.
@@ -321,7 +322,7 @@ Section Sym.
     forall fi (done todo : list str) parent pi slcount saved K,
       todo <> [] -> Forall good_comp (done ++ todo) -> before (done ++ todo) done pi ->
       dwalk h u root done = Some parent -> (precise_of slm = true -> saved = None) -> slcount <= MAXSYMLINKS ->
-      kwalk fk h u root false follow parent todo slcount false = K -> K <> WErr EFUEL -> K <> WErr ELOOP ->
+      kwalk fk h u root false follow parent todo slcount false = K -> K <> WErr EFUEL ->
       sr_err (search_loop fi h v slm root parent pi slcount saved) <> EFuel ->
       walk_rel h u root (precise_of slm) (search_loop fi h v slm root parent pi slcount saved) K.
 
@@ -333,11 +334,11 @@ Section Sym.
       dwalk h u root di = Some ni -> dwalk h u root dk = Some nk ->
       (di = [] \/ (ti <> [] /\ exists mid, di = dk ++ mid)) ->
       (precise_of slm = true -> saved = None) -> slcount <= MAXSYMLINKS ->
-      kwalk fk h u root false follow nk tk slcount false = K -> K <> WErr EFUEL -> K <> WErr ELOOP ->
+      kwalk fk h u root false follow nk tk slcount false = K -> K <> WErr EFUEL ->
       sr_err (search_loop fi h v slm root ni pi' slcount saved) <> EFuel ->
       walk_rel h u root (precise_of slm) (search_loop fi h v slm root ni pi' slcount saved) K.
   Proof.
-    intros fi cs' di ti dk tk ni nk pi' slcount saved K Hi Hk Htk Hg Hb Hdi Hdk Hpos Hsv Hsl HK Hk1 Hk2 Hnf.
+    intros fi cs' di ti dk tk ni nk pi' slcount saved K Hi Hk Htk Hg Hb Hdi Hdk Hpos Hsv Hsl HK Hk1 Hnf.
     assert (Hok : Forall comp_ok cs') by (apply Forall_comp_ok_of; exact Hg).
     destruct Hpos as [->|(Hti & mid & ->)].
     - injection Hdi as <-.
@@ -367,7 +368,7 @@ Section Sym.
   Theorem sym_bridge_at : forall fk, sync_goal fk.
   Proof.
     induction fk as [|fk IH];
-      intros fi done todo parent pi slcount saved K Hne Hg Hb Hw Hsv Hsl HK Hk1 Hk2 Hnf.
+      intros fi done todo parent pi slcount saved K Hne Hg Hb Hw Hsv Hsl HK Hk1 Hnf.
     { cbn [kwalk] in HK. congruence. }
     destruct todo as [|c todo]; [congruence|]. clear Hne.
     destruct fi as [|fi]; [cbn [search_loop sr_err] in Hnf; congruence|].
@@ -378,7 +379,7 @@ Section Sym.
     assert (Hgt : Forall good_comp todo) by (inversion Hgct; assumption).
     destruct (good_comp_kind _ Hc) as (K1 & K2).
     destruct (dwalk_end_dir _ _ _ _ _ Hw Hrd Hrp) as (Hd & Hp).
-    subst K. revert Hk1 Hk2 Hnf.
+    subst K. revert Hk1 Hnf.
     rewrite (search_loop_on h v Hos fi slm root parent pi slcount saved done todo c Hok Hb).
     rewrite (root_check_pass h v root parent Hp).
     rewrite kwalk_S, Hd, Hp. cbn [negb andb]. cbv zeta. rewrite K1, K2.
@@ -390,7 +391,7 @@ Section Sym.
                     todo = [] -> pi_is_last (out_pi (on_comp (done ++ [c]) done c) saved) = true).
     { intros Hpr _. rewrite (Hsv Hpr). cbn [out_pi]. destruct (on_comp_views done [] c) as (_ & _ & _ & _ & _ & Vl). exact Vl. }
     destruct (alookup str_eqb c (children h parent)) as [n|] eqn:Hl.
-    2:{ intros _ _ _. destruct todo as [|c2 todo]; cbn [is_nil].
+    2:{ intros _ _. destruct todo as [|c2 todo]; cbn [is_nil].
         - cbn. repeat split; auto.
         - cbn. split.
           + right. split; [auto|reflexivity].
@@ -398,37 +399,41 @@ Section Sym.
     destruct (get h n) as [[ch m|dt k i m|t m]|] eqn:Hgn.
     - (* a directory *)
       destruct todo as [|c2 todo]; cbn [is_nil].
-      + intros _ _ _. cbn. repeat split; eauto; unfold get in *; congruence.
+      + intros _ _. cbn. repeat split; eauto; unfold get in *; congruence.
       + assert (Hpn : kperm h n 1 u = check_permission m OpenLookup u) by (apply (kperm_dir _ _ _ _ u Hgn)).
         assert (Hnd : node_is_dir h n = true) by (unfold node_is_dir; rewrite Hgn; reflexivity).
         destruct (check_permission m OpenLookup u) eqn:Hcp.
-        * intros Hk1 Hk2 Hnf.
+        * intros Hk1 Hnf.
           apply (IH fi (done ++ [c]) (c2 :: todo) n _ slcount saved _); auto; try discriminate.
           -- rewrite <- app_assoc. exact Hg.
           -- rewrite <- app_assoc. apply on_comp_before.
           -- apply (dwalk_snoc _ _ _ _ _ _ _ Hw Hl); assumption.
-        * destruct fk as [|fk]; [cbn [kwalk]; congruence|]. intros _ _ _.
+        * destruct fk as [|fk]; [cbn [kwalk]; congruence|]. intros _ _.
           rewrite kwalk_S, Hnd, Hpn. cbn [negb]. cbn.
           split; [|intros _ [=]]. right. split; [auto|reflexivity].
     - (* a file *)
-      intros _ _ _. destruct todo as [|c2 todo]; cbn [is_nil].
+      intros _ _. destruct todo as [|c2 todo]; cbn [is_nil].
       + cbn. repeat split; eauto; unfold get in *; congruence.
       + cbn. split; [|intros _ [=]]. right. split; [auto|reflexivity].
     - (* a symbolic link *)
-      destruct (Hlc n t m Hgn) as (x & Ht).
+      destruct (Hlc parent c n t m (alookup_in _ _ _ _ Hl) Hgn) as (x & Ht).
       pose proof (clean_shape_clean x) as Hsh. pose proof (clean_nonempty x) as Htn. rewrite <- Ht in Hsh, Htn.
-      assert (Hbud : Nat.ltb slCountMax (S slcount) = false)
-        by (apply Nat.ltb_ge; unfold slCountMax, MAXSYMLINKS in *; lia).
-      rewrite Hbud.
       destruct (is_nil todo && slmode_eqb slm SlLstat) eqn:Hnofollow.
-      { (* final component, lstat mode: the link itself *)
-        apply andb_true_iff in Hnofollow as (Hl1 & Hl2). rewrite Hl1, Hl2. cbn [negb orb]. intros _ _ _.
+      { (* final component, lstat mode: the link itself, whatever the count *)
+        apply andb_true_iff in Hnofollow as (Hl1 & Hl2). rewrite Hl1, Hl2. cbn [negb orb]. intros _ _.
         destruct todo; [|discriminate]. cbn. repeat split; eauto; unfold get in *; congruence. }
       assert (Hfol : negb (is_nil todo) || negb (slmode_eqb slm SlLstat) || false = true).
       { destruct (is_nil todo), (slmode_eqb slm SlLstat); cbn in *; congruence. }
       rewrite Hfol.
-      destruct (Nat.leb MAXSYMLINKS slcount) eqn:Hcnt; [intros _ Hk2 _; congruence|].
-      apply Nat.leb_gt in Hcnt.
+      destruct (Nat.ltb slCountMax (S slcount)) eqn:Hbud.
+      { (* the 41st link to follow: both refuse *)
+        apply Nat.ltb_lt in Hbud. assert (Hcnt : Nat.leb MAXSYMLINKS slcount = true)
+          by (apply Nat.leb_le; unfold slCountMax, MAXSYMLINKS in *; lia).
+        rewrite Hcnt. intros _ _. cbn. split; [|intros _ [=]]. right. split; [auto|reflexivity]. }
+      apply Nat.ltb_ge in Hbud.
+      assert (Hcnt : Nat.leb MAXSYMLINKS slcount = false)
+        by (apply Nat.leb_gt; unfold slCountMax, MAXSYMLINKS in *; lia).
+      rewrite Hcnt. apply Nat.leb_gt in Hcnt.
       assert (Hnil : is_nil t = false) by (destruct t; [congruence|reflexivity]). rewrite Hnil.
       set (saved' := match saved with
                      | None => if is_nil todo && slmode_eqb slm SlStat then Some (on_comp (done ++ c :: todo) done c) else None
@@ -448,7 +453,7 @@ Section Sym.
         rewrite (kcomps_abs_path lc (Forall_comp_ok_of Hlcg)), <- Ecs. clear Ecs0.
         destruct cs' as [|c0 w].
         * (* the target is the root and nothing follows *)
-          destruct fk as [|fk]; [cbn [kwalk]; congruence|]. rewrite kwalk_S. intros _ _.
+          destruct fk as [|fk]; [cbn [kwalk]; congruence|]. rewrite kwalk_S. intros _.
           destruct Hcase as [(-> & Hb2 & _)|(_ & _ & Hres)].
           2:{ apply resumes_longer in Hres. cbn [length] in Hres. lia. }
           destruct fi as [|fi]; [cbn [search_loop sr_err]; congruence|]. intros _.
@@ -459,7 +464,7 @@ Section Sym.
         * assert (Hmd : is_nil todo && ktrailing (abs_path lc) = false).
           { destruct todo as [|c2 todo]; [|reflexivity]. cbn [is_nil andb]. rewrite app_nil_r in Ecs.
             apply ktrailing_abs_path; [apply Forall_comp_ok_of; exact Hlcg|rewrite <- Ecs; discriminate]. }
-          rewrite Hmd. cbn [orb]. intros Hk1 Hk2 Hnf.
+          rewrite Hmd. cbn [orb]. intros Hk1 Hnf.
           destruct Hcase as [(-> & Hb2 & _)|(-> & Hb2 & (todo' & Hne2 & Hres))].
           -- apply (resync fk IH fi (c0 :: w) [] (c0 :: w) [] (c0 :: w) root root pi2 (S slcount) saved' _); auto.
              discriminate.
@@ -476,7 +481,7 @@ Section Sym.
         * (* the walk ends on the last ".." *)
           symmetry in Ew'. apply app_eq_nil in Ew' as (-> & ->).
           destruct k as [|k]; [cbn in Hkn; congruence|].
-          rewrite ?app_nil_r in *. intros Hk1 Hk2 Hnf.
+          rewrite ?app_nil_r in *. intros Hk1 Hnf.
           destruct (kwalk_dotdots_end h u root Hwf Hrd Hrp k done parent fk follow (S slcount) false Hw) as (p & Hp1 & Hp2).
           pose proof (kwalk_mono (S k) fk h u root false follow parent (repeat DD (S k)) (S slcount) false _ eq_refl Hk1) as Hm.
           change (S k + fk) with (S (k + fk)) in Hm. rewrite Hp2 in Hm. rewrite <- Hm.
@@ -491,12 +496,12 @@ Section Sym.
           split; [exact R1|]. split; [exact R2|].
           split; [apply node_is_dir_valid; exact (proj1 (dwalk_end_dir _ _ _ _ _ Hp1 Hrd Hrp))|].
           split; [exact R3|]. split; [intros Hpr; apply R4; [exact (Hsv' Hpr)|reflexivity]|]. intros [=].
-        * intros Hk1 Hk2 Hnf.
+        * intros Hk1 Hnf.
           assert (Hw' : c0 :: w <> []) by discriminate.
           destruct (kwalk_dotdots h u root Hwf Hrd Hrp k done parent (c0 :: w) fk false follow (S slcount) false Hw' Hw)
             as (cur' & Hc1 & Hc2).
           pose proof (kwalk_mono k fk h u root false follow parent (repeat DD k ++ c0 :: w) (S slcount) false _ eq_refl Hk1) as Hm.
-          rewrite Hc2 in Hm. rewrite <- Hm in Hk1, Hk2 |- *.
+          rewrite Hc2 in Hm. rewrite <- Hm in Hk1 |- *.
           set (done' := firstn (length done - k) done) in *.
           destruct Hcase as [(-> & Hb2 & _)|(-> & Hb2 & (todo' & Hne2 & Hres))].
           -- apply (resync fk IH fi cs' [] cs' done' (c0 :: w) root cur' pi2 (S slcount) saved' _); auto.
@@ -512,7 +517,7 @@ Section Sym.
         rewrite kwalk_S, Hd, Hp. cbn [negb andb]. cbv zeta.
         change (str_eqb [DOT] DOTS) with true. cbv iota.
         destruct todo as [|c2 todo]; cbn [is_nil].
-        * rewrite app_nil_r in Ecs. intros _ _ Hnf.
+        * rewrite app_nil_r in Ecs. intros _ Hnf.
           destruct Hcase as [(-> & Hb2 & _)|(_ & _ & Hres)].
           2:{ apply resumes_longer in Hres. rewrite Ecs in Hres. lia. }
           pose proof (search_loop_mono (S (length cs')) fi h v slm root root pi2 (S slcount) saved' _ eq_refl Hnf) as Hm2.
@@ -522,9 +527,9 @@ Section Sym.
           cbn. change (S (length cs') + fi) with (S (length cs' + fi)).
           split; [exact R1|]. split; [exact R2|]. split; [apply node_is_dir_valid; exact Hd|].
           split; [exact R3|]. split; [intros Hpr; apply R4; [exact (Hsv' Hpr)|reflexivity]|]. intros [=].
-        * intros Hk1 Hk2 Hnf.
+        * intros Hk1 Hnf.
           pose proof (kwalk_mono_S fk h u root false follow parent (c2 :: todo) (S slcount) false _ eq_refl Hk1) as Hm.
-          rewrite <- Hm in Hk1, Hk2 |- *.
+          rewrite <- Hm in Hk1 |- *.
           destruct Hcase as [(-> & Hb2 & _)|(-> & Hb2 & (todo' & Hne2 & Hres))].
           -- apply (resync (S fk) IH fi cs' [] cs' done (c2 :: todo) root parent pi2 (S slcount) saved' _); auto.
              discriminate.
@@ -532,7 +537,7 @@ Section Sym.
              ++ discriminate.
              ++ right. split; [exact Hne2|]. exists []. symmetry. apply app_nil_r.
     - (* a dangling pointer *)
-      intros Hk1 _ _. congruence.
+      intros Hk1 _. congruence.
   Qed.
 End Sym.
 
@@ -544,24 +549,24 @@ Theorem sym_bridge (h : heap) (v : view) (slm : slmode) (cs : list str) (fi fk :
   Forall good_comp cs -> (md = false \/ cs = []) ->
   let K := kwalk fk h (v_user v) (v_root v) false (follow_of slm) (v_root v) cs 0 md in
   let r := search_loop fi h v slm (v_root v) (v_root v) (pi_new Linux (abs_path cs)) 0 None in
-  K <> WErr EFUEL -> K <> WErr ELOOP -> sr_err r <> EFuel ->
+  K <> WErr EFUEL -> sr_err r <> EFuel ->
   walk_rel h (v_user v) (v_root v) (precise_of slm) r K.
 Proof.
   intros Hos Hwf Hlc Hrd Hg Hmd K r. subst K r. destruct cs as [|c cs].
   - destruct fk as [|fk]; [cbn [kwalk]; congruence|]. destruct fi as [|fi]; [cbn [search_loop sr_err]; congruence|].
-    intros _ _ _.
+    intros _ _.
     rewrite (search_loop_end h v Hos fi slm (v_root v) (v_root v) _ 0 None [] (Forall_nil _) (pi_new_before [])).
     rewrite kwalk_S. cbn [walk_rel sr_err sr_child sr_parent]. split; [reflexivity|]. split; [reflexivity|].
     split; [apply node_is_dir_valid; exact Hrd|]. split; [eauto|]. split; [reflexivity|]. intros [=].
   - destruct Hmd as [->|Hmd]; [|discriminate]. destruct (kperm h (v_root v) 1 (v_user v)) eqn:Hrp.
-    + intros Hk1 Hk2 Hnf.
+    + intros Hk1 Hnf.
       apply (sym_bridge_at h v Hos Hwf Hlc Hrd Hrp slm fk fi [] (c :: cs) (v_root v) _ 0 None _); auto.
       * discriminate.
       * apply pi_new_before.
       * unfold MAXSYMLINKS. lia.
     + (* the caller may not search the root: both walks stop at once *)
       destruct fk as [|fk]; [cbn [kwalk]; congruence|]. destruct fi as [|fi]; [cbn [search_loop sr_err]; congruence|].
-      intros _ _ _.
+      intros _ _.
       assert (Hok : Forall comp_ok (c :: cs)) by (apply Forall_comp_ok_of; exact Hg).
       rewrite (search_loop_on h v Hos fi slm (v_root v) (v_root v) _ 0 None [] cs c Hok (pi_new_before (c :: cs))). cbv zeta.
       rewrite root_check_kperm, Nat.eqb_refl, Hrp. rewrite kwalk_S, Hrd, Hrp. cbn.
@@ -575,7 +580,7 @@ Theorem sym_bridge_lookup (s : fsys) (sv : sview) (slm : slmode) (cs : list str)
   Forall good_comp cs ->
   let K := klookup s sv false (follow_of slm) (abs_path cs) in
   let r := search_node s v (abs_path cs) slm in
-  K <> WErr EFUEL -> K <> WErr ELOOP -> sr_err r <> EFuel ->
+  K <> WErr EFUEL -> sr_err r <> EFuel ->
   walk_rel h (v_user v) (v_root v) (precise_of slm) r K.
 Proof.
   intros v h Hos Hwf Hlc Hrd Hg K r. subst K r.
@@ -602,23 +607,39 @@ Module WalkSymExamples.
   Definition chain_fs (n : nat) : fsys := {| f_heap := chain_heap n; f_last_id := 1; f_vols := [] |}.
   Definition sv_of (v : view) : sview := {| sv_view := v; sv_cwd := 0 |}.
 
-  (* 40 links: both resolve to the file; 41: the kernel refuses, the implementation resolves;
-     65: both refuse *)
+  (* the two budgets are the same (40): a chain of 40 links resolves on both sides, the 41st link is refused on
+     both sides *)
   Example budget_agree_40 :
     sr_child (search_node (chain_fs 40) adminv (abs_path [nm 0]) SlStat) = Some 41
     /\ klookup (chain_fs 40) (sv_of adminv) false true (abs_path [nm 0]) = WNode 0 LNorm (nm 40) 41.
   Proof. vm_compute. split; reflexivity. Qed.
 
-  Example budget_differs :
-    (let r := search_node (chain_fs 41) adminv (abs_path [nm 0]) SlStat in
-     sr_err r = EFileExists /\ sr_child r = Some 42)
+  Example budget_agree_41 :
+    sr_err (search_node (chain_fs 41) adminv (abs_path [nm 0]) SlStat) = ETooManySymlinks
     /\ klookup (chain_fs 41) (sv_of adminv) false true (abs_path [nm 0]) = WErr ELOOP.
+  Proof. vm_compute. split; reflexivity. Qed.
+
+  (* a link that is NOT followed does not count: 40 links crossed on the way to a directory, then Lstat of a link
+     in it, answers the link on both sides (before the repo fix the implementation answered ELOOP here).
+     Heap: root { nm 0 .. nm 39 : links, nm i -> nm (i+1), nm 39 -> "D" ; "D" : directory { "x" : link } } *)
+  Definition s_D : str := [68%N]. Definition s_X : str := [120%N].
+  Definition corner_heap (n : nat) : heap :=
+    NDir (map (fun i => (nm i, S i)) (seq 0 n) ++ [(s_D, S n)]) dmeta
+    :: map (fun i => NSym (if Nat.eqb (S i) n then s_D else nm (S i)) lmeta) (seq 0 n)
+       ++ [NDir [(s_X, S (S n))] dmeta; NSym s_D lmeta].
+  Definition corner_fs (n : nat) : fsys := {| f_heap := corner_heap n; f_last_id := 0; f_vols := [] |}.
+
+  Example lstat_after_39_links :
+    (let r := search_node (corner_fs 39) adminv (abs_path [nm 0; s_X]) SlLstat in
+     sr_err r = EFileExists /\ sr_child r = Some 41)
+    /\ klookup (corner_fs 39) (sv_of adminv) false false (abs_path [nm 0; s_X]) = WNode 40 LNorm s_X 41.
   Proof. vm_compute. split; [split|]; reflexivity. Qed.
 
-  Example budget_both_refuse :
-    sr_err (search_node (chain_fs 65) adminv (abs_path [nm 0]) SlStat) = ETooManySymlinks
-    /\ klookup (chain_fs 65) (sv_of adminv) false true (abs_path [nm 0]) = WErr ELOOP.
-  Proof. vm_compute. split; reflexivity. Qed.
+  Example lstat_after_40_links :
+    (let r := search_node (corner_fs 40) adminv (abs_path [nm 0; s_X]) SlLstat in
+     sr_err r = EFileExists /\ sr_child r = Some 42)
+    /\ klookup (corner_fs 40) (sv_of adminv) false false (abs_path [nm 0; s_X]) = WNode 41 LNorm s_X 42.
+  Proof. vm_compute. split; [split|]; reflexivity. Qed.
 
   (* a small tree with every kind of link:
        /d (dir 0755)   /d/e (dir)   /d/e/f (file)     /d/up -> ".."     /d/e/top -> "../../d"
@@ -680,7 +701,7 @@ Module WalkSymExamples.
     /\ spec_obs alicev true [s_abs; s_f] = WNode 2 LNorm s_f 3.
   Proof. vm_compute. repeat split; reflexivity. Qed.
 
-  (* a self-referential link: both give up (the kernel after 40, the implementation after 64 links) *)
+  (* a self-referential link: both give up at the 41st link *)
   Example tree_loop :
     impl_obs adminv SlStat [s_loop] = (ETooManySymlinks, Some 9) /\ spec_obs adminv true [s_loop] = WErr ELOOP.
   Proof. vm_compute. split; reflexivity. Qed.
@@ -720,7 +741,7 @@ Module WalkSymNonVacuity.
   Qed.
   Example tree_links_clean : links_clean tree.
   Proof.
-    intros i t m. unfold get.
+    intros d0 n0 i t m _. unfold get.
     do 14 (destruct i as [|i];
            [cbn [nth_error tree]; intros E; try discriminate E; injection E as <- _;
             match goal with |- exists x, ?t = _ => exists t end; vm_compute; reflexivity|]).
@@ -738,7 +759,6 @@ Module WalkSymNonVacuity.
     - exact tree_links_clean.
     - reflexivity.
     - repeat constructor; try discriminate; intros x [<-|[]]; discriminate.
-    - vm_compute; discriminate.
     - vm_compute; discriminate.
     - vm_compute; discriminate.
   Qed.
